@@ -24,7 +24,8 @@ RULE = ('abstract messages from a grammar over every header field and every payl
         'trailing / short chains raising InvalidSyntax; (3) for accepted byte strings of the C06 generators '
         'to_bytes(parse(b1)) == b1 where b1 = to_bytes(parse(b)); (4) to_dict has one entry per payload, in order, '
         'named as in the RFC, and changing any single decoded field changes that entry (dump is injective per field). '
-        'Non-trivial = message with >= 2 payloads or a nested SA; distinct by structural shape.')
+        'Non-trivial = message with >= 2 payloads or a nested SA; distinct by structural shape. '
+        'Serialising is repeatable (second to_bytes() gives the same bytes, the dump afterwards still lists the payloads) and the header entries of the dump carry the encoded values (R, I, V flags with their RFC 7296 3.1 meaning).')
 ASSUMPTIONS = [
     'reference encoder/decoder vf/ref/ikewire.py written from RFC 7296 section 3 (self-tested)',
     'the critical bit of RFC-defined payloads is always sent as 0 (RFC 7296 2.5), so it is only varied in the parse '
